@@ -2,6 +2,7 @@ package props
 
 import (
 	"fmt"
+	"strings"
 	"testing"
 	"time"
 
@@ -116,6 +117,31 @@ func genC19(t *rapid.T) c19Case {
 		q.Sort = genSort(t, l, c02SortSyms, 7)
 		q.Page = genPaging(t, l, len(d.People))
 		c.Queries = append(c.Queries, q)
+		// sometimes followed, on the same store instance, by a twin that differs only in the letter case of its
+		// string literals (and by an exact repeat): every query is answered on its own
+		if q.Pred != nil && rapid.IntRange(0, 3).Draw(t, l+"_twin") == 0 {
+			twin := q
+			twin.Pred = q.Pred.Clone()
+			flipped := false
+			twin.Pred.Walk(func(e *kit.Expr) {
+				for i := range e.C {
+					if e.C[i].K == "s" && e.C[i].S != "" {
+						s := e.C[i].S
+						if i < len(e.Txt) {
+							e.Txt[i] = "" // render the flipped value, not the original spelling
+						}
+						if up := strings.ToUpper(s); up != s {
+							e.C[i].S, flipped = up, true
+						} else if lo := strings.ToLower(s); lo != s {
+							e.C[i].S, flipped = lo, true
+						}
+					}
+				}
+			})
+			if flipped {
+				c.Queries = append(c.Queries, twin, q)
+			}
+		}
 	}
 	return c
 }
